@@ -26,7 +26,7 @@ QOf(qq)    == [open |-> qq.open, n |-> qq.n, e |-> [i \in 0..(qq.n - 1) |-> qq.e
 G0 == [rej |-> EmptyBl, applied |-> {}, must |-> {}, used |-> {}, inst |-> << >>, late |-> {},
        verified |-> FALSE, cur |-> NoSnap, retry |-> FALSE,
        \* mode F only
-       settled |-> EmptyBl, fsettled |-> << >>, sent |-> {}, failed |-> {}, inflight |-> {}]
+       settled |-> EmptyBl, fsettled |-> << >>, sent |-> {}, failed |-> {}, inflight |-> {}, usedb |-> {}]
 
 Init == l = 1 /\ S = S0 /\ G = G0 /\ viol = {} /\ drift = {}
 
@@ -236,10 +236,89 @@ StepD(e) ==
     [] e.ev = "Requests"        -> StepRequests(e)
     [] e.ev = "End"             -> StepEnd(e)
 
+\* ------------------------------------------------------------ mode F steps
+(* Real fetcher goroutines, peers answering requests, an app drawing its own verdicts: the
+   lines are in the order in which they were logged (one mutex), which is the real order
+   only per goroutine.  Rules used (each one can only miss, never raise a false alarm):
+   * the applier's lines (Provider, Offer, Apply, Info, End) are in program order, and the
+     handling of a verdict (Discard, RejectPeer, DiscardSender, Reject...) is complete when
+     its next line is logged: G.settled := G.rej at every applier line;
+   * a fetcher's Request follows its own Fetch line; a request to p is judged against the
+     rejections that were settled when that fetcher logged its Fetch (before GetPeer);
+   * a chunk instance is "sent" before AddChunk is called and "added/ignored" after it
+     returned; instances in flight at a refetch verdict make the refetch check skip.     *)
+Applier(e) == e.ev \in {"Provider", "Offer", "Apply", "Info", "End"}
+Settle(g) == [g EXCEPT !.settled = g.rej]
+
+FOffer(e) ==
+  LET g0 == IF G.retry THEN G ELSE [G EXCEPT !.must = {}, !.usedb = {}]
+      g1 == [g0 EXCEPT !.applied = {}, !.verified = FALSE, !.cur = e.s, !.retry = FALSE]
+      g2 == CASE e.v = "reject"        -> [g1 EXCEPT !.rej.snap = @ \cup {e.s}]
+              [] e.v = "reject_format" -> [g1 EXCEPT !.rej.fmt = @ \cup {e.s.f}]
+              [] OTHER -> g1             \* reject_sender: the pool is not observed in mode F
+  IN /\ G' = Settle(g2)
+     /\ viol' = viol
+          \cup FailIf(~OfferTrustedOk(e.s, e.apphash), V("TrustedOnly", "offer_apphash"))
+          \cup FailIf(e.s \in G.rej.snap, V("NeverReused", "offer_rejected_snapshot"))
+          \cup FailIf(e.s \notin G.rej.snap /\ e.s.f \in G.rej.fmt, V("NeverReused", "offer_rejected_format"))
+
+FApply(e) ==
+  LET rf == SeqSet(e.rf)
+      rs == SeqSet(e.rs)
+      flying(j) == \E r \in G.sent : r.i = j /\ r.x \in G.inflight
+      recorded == \E r \in G.sent : r.i = e.i /\ r.b = e.b /\ r.p = e.sender /\ r.x \notin G.failed
+      g1 == [G EXCEPT !.usedb = @ \cup {e.b},
+                      !.applied = AppliedAfter(@, e.i, e.v, rf),
+                      !.must = @ \cup {j \in rf : ~flying(j)},
+                      !.rej.peer = @ \cup rs,
+                      !.rej.snap = IF e.v = "reject_snapshot" THEN @ \cup {e.s} ELSE @,
+                      !.retry = e.v = "retry_snapshot"]
+  IN /\ G' = Settle(g1)
+     /\ viol' = viol
+          \cup FailIf(~InOrderOk(e.s.n, G.applied, e.i), V("InOrder", "apply_out_of_order"))
+          \cup FailIf(~recorded, V("AsRecorded", "bytes_or_sender"))
+          \cup FailIf(~RefetchOk(G.must, e.i), V("RefetchHonoured", "stale_chunk_applied"))
+          \cup FailIf(e.sender \in G.rej.peer /\ e.b \notin G.usedb, V("NeverReused", "chunk_rejected_sender"))
+
+FEnd(e) ==
+  /\ G' = Settle(G)
+  /\ viol' = viol
+       \cup FailIf(e.kind = "done" /\ ~ResultTrustedOk(G.cur, e.st, e.cm), V("TrustedOnly", "result"))
+       \cup FailIf(e.kind # "done" /\ (e.st # NoState \/ e.cm # NoCommit), V("TrustedOnly", "state_without_done"))
+       \cup FailIf(e.kind = "done" /\ ~G.verified, V("VerifiedBeforeDone", "done_unverified"))
+       \cup FailIf(e.kind = "done" /\ ~DoneChunksOk(G.cur.n, G.applied, G.must), V("InOrder", "done_incomplete"))
+
+StepF(e) ==
+  /\ S' = S /\ drift' = drift
+  /\ CASE e.ev = "Provider" ->
+            /\ G' = Settle(IF e.ans = "fail" THEN [G EXCEPT !.rej.snap = @ \cup {e.s}] ELSE G)
+            /\ viol' = viol \cup FailIf(e.h # e.s.h, V("TrustedOnly", "provider_asked_other_height"))
+       [] e.ev = "Offer" -> FOffer(e)
+       [] e.ev = "Apply" -> FApply(e)
+       [] e.ev = "Info"  -> G' = Settle([G EXCEPT !.verified = InfoVerifies(e.s, e.ans)]) /\ UNCHANGED viol
+       [] e.ev = "End"   -> FEnd(e)
+       [] e.ev = "Fetch" ->
+            /\ G' = [G EXCEPT !.fsettled = [g \in DOMAIN @ \cup {e.g} |-> IF g = e.g THEN G.settled ELSE @[g]]]
+            /\ UNCHANGED viol
+       [] e.ev = "Request" ->
+            /\ viol' = viol
+                 \cup FailIf(e.g \in DOMAIN G.fsettled /\ e.p \in G.fsettled[e.g].peer, V("NeverReused", "ask_rejected_peer"))
+                 \cup FailIf(e.g \in DOMAIN G.fsettled /\ e.f \in G.fsettled[e.g].fmt, V("NeverReused", "ask_rejected_format"))
+            /\ UNCHANGED G
+       [] e.ev = "ChunkSend" ->
+            /\ G' = [G EXCEPT !.sent = @ \cup {[x |-> e.x, i |-> e.i, b |-> e.b, p |-> e.p]},
+                              !.inflight = @ \cup {e.x}, !.must = @ \ {e.i}]
+            /\ UNCHANGED viol
+       [] e.ev = "ChunkAdded" ->
+            /\ G' = [G EXCEPT !.inflight = @ \ {e.x}, !.failed = IF e.res = "added" THEN @ ELSE @ \cup {e.x}]
+            /\ UNCHANGED viol
+       [] OTHER -> UNCHANGED <<G, viol>>
+
 Step ==
   /\ l <= Len(Trace)
   /\ LET e == Trace[l] IN
        IF e.ev = "Reset" THEN StepReset(e)
+       ELSE IF e.mode = "F" THEN StepF(e)
        ELSE StepD(e)
   /\ l' = l + 1
 
